@@ -26,7 +26,7 @@ SPEC = {
                     "reference reader written from tucan.ebnf + Hill's rule; its notion of the language is cross-checked against the EBNF element order at start-up"],
     "monitors_required": ["c10_differential", "ebnf_crosscheck"],
     "required_obs": {"quick": ["accepted", "reject_reason/lexer", "reject_reason/syntax", "reject_reason/index", "reject_reason/self-loop", "reject_reason/duplicate-attribute",
-                               "cov_all_118_symbols_accepted", "cov_mutation/insert", "cov_mutation/delete", "cov_mutation/replace", "cov_mutation/transpose", "cov_boundary/boundary:count-one", "cov_boundary/boundary:n+1-first", "cov_boundary/boundary:dup-attr-same", "cov_boundary/boundary:carbon-late", "cov_sentence_with_100_or_more_atoms", "cov_big_sentence_boundary_probes"]},
+                               "cov_all_118_symbols_accepted", "cov_mutation/insert", "cov_mutation/delete", "cov_mutation/replace", "cov_mutation/transpose", "cov_boundary/boundary:count-one", "cov_boundary/boundary:n+1-first", "cov_boundary/boundary:dup-attr-same", "cov_boundary/boundary:carbon-late", "cov_sentence_with_100_or_more_atoms", "cov_big_sentence_boundary_probes", "cov_int_max_str_digits/0", "cov_int_max_str_digits/default"]},
     "watchdog_s": {"quick": 900, "thorough": 5400},
 }
 PLAN = {"quick": {"sentences": 6000, "mut_per": 10, "exhaustive_sentences": 0},
@@ -67,6 +67,13 @@ def run(ctx):
     plan = PLAN[ctx.tier]
     monitors.install(ctx, {"C10"}, seed=f"{ctx.seed}/{ctx.shard}")
     ebnf_crosscheck(ctx)
+    # configurations: the interpreter's int<->str digit limit is a process setting a host application may change (0 = unlimited)
+    if hasattr(sys, "set_int_max_str_digits") and ctx.shard % 4 in (1, 2):
+        limit = 0 if ctx.shard % 4 == 1 else 640
+        sys.set_int_max_str_digits(limit)
+        ctx.seen("cov_int_max_str_digits", limit)
+    else:
+        ctx.seen("cov_int_max_str_digits", "default")
     rng = ctx.rng
     seen_syms = set()
     n_sent = common.share(ctx, plan["sentences"])
